@@ -56,14 +56,15 @@ func (t *mixedTable) insert(k, v Value) {
 // Set k => v only if there is already v1 such that k => v1.  Returns true if
 // that is the case.
 func (t *mixedTable) reset(k, v Value) (wasSet bool) {
-	i, ok := ToIntNoString(k)
-	if ok {
-		ok, wasSet = t.array.resetValue(i, v)
-		if ok {
+	i, isInt := ToIntNoString(k)
+	if isInt {
+		var inArray bool
+		inArray, wasSet = t.array.resetValue(i, v)
+		if inArray {
 			return
 		}
-	}
-	if ok {
+		// The key is an integer stored in the hash table: look it up in its
+		// normalised (integer) form, as get, insert and remove do.
 		k = IntValue(i)
 	}
 	return t.hashTable.reset(k, v)
